@@ -53,7 +53,9 @@ func TestC10Enum(t *testing.T) {
 				via := []string{"", "getcertificate", "getconfig"}[(si+ri)%3]
 				// ... and the compression lists: the usual one, one with an option the transport lacks, one that shares nothing with the transport
 				comp := [][]string{{"none"}, {"none", "gzip"}, {"gzip"}}[(si+2*ri)%3]
-				cfg := SrvCfg{Transport: "tcp-tls", Comp: comp, Enc: []string{"tls"}, Schemes: schemes, Auth: standardAuth(schemes), Register: reg, Mode: mode, TLSVia: via}
+				// "every server option list without none": also the lists that name tls more than once
+				enc := [][]string{{"tls"}, {"tls", "tls"}, {"tls"}, {"tls", "tls", "tls"}}[(2*si+ri)%4]
+				cfg := SrvCfg{Transport: "tcp-tls", Comp: comp, Enc: enc, Schemes: schemes, Auth: standardAuth(schemes), Register: reg, Mode: mode, TLSVia: via}
 				alpha := srvAlphabet(&cfg, false)
 				// both branches: a client that expects negotiation and one that skips it
 				for _, neg := range []bool{true, false} {
@@ -64,6 +66,7 @@ func TestC10Enum(t *testing.T) {
 						}
 						o := &Outcome{NonTrivial: true}
 						o.Class("mode=" + mode)
+						o.Class(fmt.Sprintf("enc-list-len=%d", len(enc)))
 						var obs *SrvObs
 						rec.Journal(c)
 						synctest.Test(t, func(t *testing.T) { obs = RunServerScript(c) })
@@ -142,7 +145,7 @@ func TestC10Pair(t *testing.T) {
 						if sch == "guest" || sch == "transport" {
 							cr = ""
 						}
-						c := &PairCase{Srv: SrvCfg{Transport: "tcp-tls", Comp: []string{"none"}, Enc: []string{"tls"}, Schemes: schemes,
+						c := &PairCase{Srv: SrvCfg{Transport: "tcp-tls", Comp: []string{"none"}, Enc: [][]string{{"tls"}, {"tls", "tls"}}[(si+len(cred)/2)%2], Schemes: schemes,
 							Auth: standardAuth(schemes), Register: []string{"echo", "assign"}[si%2], TLSVia: []string{"", "getcertificate", "getconfig"}[(si+len(cred))%3]},
 							CliEnc: cliEnc, CliComp: "first", CliScheme: sch, CliCred: cr, CliTLS: cliTLS}
 						o := &Outcome{NonTrivial: true}
@@ -166,12 +169,13 @@ func TestC10(t *testing.T) {
 	rapid.Check(t, func(rt *rapid.T) {
 		c := genSrvCase(rt, []string{"direct", "server"})
 		c.Cfg.Transport = "tcp-tls"
-		c.Cfg.Enc = []string{"tls"}
+		c.Cfg.Enc = rapid.SampledFrom([][]string{{"tls"}, {"tls"}, {"tls", "tls"}, {"tls", "tls", "tls"}}).Draw(rt, "encList")
 		if rapid.IntRange(0, 3).Draw(rt, "compNothingShared") == 0 {
 			c.Cfg.Comp = []string{"gzip"} // shares nothing with what the transport supports
 		}
 		o := &Outcome{NonTrivial: true}
 		o.Class("comp=" + strings.Join(c.Cfg.Comp, "+"))
+		o.Class("enc=" + strings.Join(c.Cfg.Enc, "+"))
 		rec.Journal(c)
 		var obs *SrvObs
 		rapid.SyncTest(rt, func(rt *rapid.T) { obs = RunServerScript(c) })
